@@ -19,6 +19,7 @@
 (declare-fun fieldsEnd ((Array (_ BitVec 64) (_ BitVec 8)) (_ BitVec 64)) (_ BitVec 64))
 (declare-fun listEnd ((Array (_ BitVec 64) (_ BitVec 8)) (_ BitVec 8) (_ BitVec 64) (_ BitVec 64)) (_ BitVec 64))
 (declare-fun mapEnd ((Array (_ BitVec 64) (_ BitVec 8)) (_ BitVec 8) (_ BitVec 8) (_ BitVec 64) (_ BitVec 64)) (_ BitVec 64))
+; @opaque skipEnd
 (define-fun skipEnd ((a (Array (_ BitVec 64) (_ BitVec 8))) (t (_ BitVec 8)) (p (_ BitVec 64))) (_ BitVec 64)
   (ite (not (= (tyw t) (_ bv0 64))) (bvadd p (tyw t))
   (ite (= t #x0b) (bvadd p (_ bv4 64) ((_ sign_extend 32) (be32at a p)))
